@@ -1,6 +1,7 @@
 package main
 
 import (
+	"strings"
 	"fmt"
 	"math"
 
@@ -14,6 +15,8 @@ import (
 // C18 — quality scores encode, decode and convert consistently.
 //
 // Exhaustive over the 8-bit domains, oracle = independent math formulas.
+
+var c18AllEncs = []alphabet.Encoding{alphabet.Sanger, alphabet.Solexa, alphabet.Illumina1_3, alphabet.Illumina1_5, alphabet.Illumina1_8, alphabet.Illumina1_9}
 
 func init() {
 	register(&obs.Monitor{
@@ -113,6 +116,11 @@ func c18Case(r *obs.Run, i int) {
 				if got := qs.Encoding().DecodeToQphred(qs.QEncode(0)); int(got) != q {
 					r.Violate("phred-roundtrip", fmt.Sprintf("linear.QSeq QDecode(QEncode) %d under %s = %d", q, encNames[e], got),
 						c18w{"linear.QSeq-roundtrip", q, encNames[e], got, q})
+				}
+				// the FASTQ rendering (%q verb) carries the same byte
+				if lines := strings.Split(fmt.Sprintf("%q", qs), "\n"); len(lines) < 4 || len(lines[3]) != 1 || int(lines[3][0]) != q+phredOffset(e) {
+					r.Violate("phred-encode-byte", fmt.Sprintf("linear.QSeq %%q rendering of Qphred(%d) under %s is %q, want quality byte %d", q, encNames[e], lines, q+phredOffset(e)),
+						c18w{"linear.QSeq-%q", q, encNames[e], lines, q + phredOffset(e)})
 				}
 			}
 		}
@@ -364,6 +372,21 @@ func c18Case(r *obs.Run, i int) {
 				if got := alphabet.Ephred(p); float64(got) != want {
 					r.Violate("ephred-nearest", fmt.Sprintf("Ephred(%g)=%d want %g", p, got, want), c18w{"ephred", p, "", got, want})
 				}
+				if k%8 == 0 { // the containers' SetE, whatever their encoding, store the same nearest score
+					for _, e := range c18AllEncs {
+						ph := quality.NewPhred("x", []alphabet.Qphred{0}, e)
+						ph.SetE(0, p)
+						if float64(ph.At(0)) != want {
+							r.Violate("ephred-nearest", fmt.Sprintf("quality.Phred (encoding %s) SetE(%g) stored %d want %g", encNames[e], p, ph.At(0), want), c18w{"quality.Phred-SetE", p, encNames[e], int(ph.At(0)), want})
+						}
+						qs := linear.NewQSeq("x", []alphabet.QLetter{{L: 'a'}}, alphabet.DNA, e)
+						qs.SetE(0, p)
+						if float64(qs.At(0).Q) != want {
+							r.Violate("ephred-nearest", fmt.Sprintf("linear.QSeq (encoding %s) SetE(%g) stored %d want %g", encNames[e], p, qs.At(0).Q, want), c18w{"linear.QSeq-SetE", p, encNames[e], int(qs.At(0).Q), want})
+						}
+					}
+					r.Count("container_sete_checked", 1)
+				}
 			} else {
 				a := -10 * math.Log10(p/(1-p))
 				want := math.Floor(a + 0.5)
@@ -375,6 +398,16 @@ func c18Case(r *obs.Run, i int) {
 				r.Count("probabilities_judged", 1)
 				if got := alphabet.Esolexa(p); float64(got) != want {
 					r.Violate("esolexa-nearest", fmt.Sprintf("Esolexa(%g)=%d want %g", p, got, want), c18w{"esolexa", p, "", got, want})
+				}
+				if k%8 == 0 {
+					for _, e := range c18AllEncs {
+						so := quality.NewSolexa("x", []alphabet.Qsolexa{0}, e)
+						so.SetE(0, p)
+						if float64(so.At(0)) != want {
+							r.Violate("esolexa-nearest", fmt.Sprintf("quality.Solexa (encoding %s) SetE(%g) stored %d want %g", encNames[e], p, so.At(0), want), c18w{"quality.Solexa-SetE", p, encNames[e], int(so.At(0)), want})
+						}
+					}
+					r.Count("container_sete_checked", 1)
 				}
 			}
 			if k < 2 && r.WantSample() {
